@@ -526,3 +526,86 @@ def runs_only_if(stmt: ast.AST, want: ast.AST) -> bool:
             if (rel == 'same' and pol) or (rel == 'negated' and not pol):
                 return True
     return False
+
+
+# ---------------------------------------------------------------------------------------------------------------------
+# String building: '%'-formatting, str.format, f-strings and '+' of such pieces read as one template.
+def str_template(node: ast.AST):
+    """(template, args) with every hole written `%s` (literal per cent doubled), or None when `node` is not a string built
+    from literals and plain holes.  `'%s{%s}' % (a, b)`, `'{}{{{}}}'.format(a, b)`, f'{a}{{{b}}}' and `a + '{' + b + '}'`
+    (at least one literal piece) all read ('%s{%s}', [a, b])."""
+    import re as _re
+    if isinstance(node, ast.Constant) and isinstance(node.value, str):
+        return node.value.replace('%', '%%'), []
+    if isinstance(node, ast.BinOp) and isinstance(node.op, ast.Mod) and isinstance(node.left, ast.Constant) and isinstance(node.left.value, str):
+        fmt = node.left.value
+        args = list(node.right.elts) if isinstance(node.right, ast.Tuple) else [node.right]
+        holes = _re.findall(r'%(.)', fmt)
+        if any(h not in 'sdr%' for h in holes) or sum(h != '%' for h in holes) != len(args):
+            return None
+        return _re.sub(r'%[dr]', '%s', fmt), args
+    if isinstance(node, ast.Call) and isinstance(node.func, ast.Attribute) and node.func.attr == 'format' and not node.keywords \
+            and isinstance(node.func.value, ast.Constant) and isinstance(node.func.value.value, str):
+        fmt = node.func.value.value
+        out, args, i, auto = '', [], 0, 0
+        while i < len(fmt):
+            c = fmt[i]
+            if fmt.startswith('{{', i) or fmt.startswith('}}', i):
+                out += c
+                i += 2
+            elif c == '{':
+                j = fmt.index('}', i)
+                field = fmt[i + 1:j]
+                if field == '':
+                    k = auto
+                    auto += 1
+                elif field.isdigit():
+                    k = int(field)
+                else:
+                    return None
+                if k >= len(node.args) or isinstance(node.args[k], ast.Starred):
+                    return None
+                args.append(node.args[k])
+                out += '%s'
+                i = j + 1
+            elif c == '}':
+                return None
+            else:
+                out += '%%' if c == '%' else c
+                i += 1
+        return out, args
+    if isinstance(node, ast.JoinedStr):
+        out, args = '', []
+        for v in node.values:
+            if isinstance(v, ast.Constant) and isinstance(v.value, str):
+                out += v.value.replace('%', '%%')
+            elif isinstance(v, ast.FormattedValue) and v.format_spec is None and v.conversion in (-1, 115, 114):
+                out += '%s'
+                args.append(v.value)
+            else:
+                return None
+        return out, args
+    if isinstance(node, ast.BinOp) and isinstance(node.op, ast.Add):
+        def piece(n):
+            t = str_template(n)
+            if t is not None:
+                return t
+            return '%s', [n]
+        parts = []
+
+        def flat(n):
+            if isinstance(n, ast.BinOp) and isinstance(n.op, ast.Add):
+                flat(n.left)
+                flat(n.right)
+            else:
+                parts.append(n)
+        flat(node)
+        if not any(isinstance(p, ast.Constant) and isinstance(p.value, str) for p in parts):
+            return None
+        out, args = '', []
+        for p in parts:
+            t, a = piece(p)
+            out += t
+            args += a
+        return out, args
+    return None
